@@ -1,20 +1,167 @@
-//! C08 — not implemented yet (stub).
+//! C08 — runtime limits stop runaway scripts and cannot be intercepted.
 
 use crate::driver::{CaseOut, Env, Prop, Stream, Tier};
+use crate::genp::limits::{LOOPS, ROUTES, WRAPPERS, generate};
+use crate::run::{Completion, RunCfg, apply_cfg, classify, install_print, panic_signature, take_last_panic, throw_class};
+use crate::tape::Tape;
+use boa_engine::{Context, Source, js_string};
 
 pub struct C08;
+
+struct Outcome {
+    eval: Completion,
+    jobs: Option<Completion>,
+    prints: Vec<String>,
+    count: f64,
+    depth: f64,
+}
+
+fn run_limited(src: &str, loop_limit: u64, recursion: usize, stack: usize) -> Outcome {
+    crate::run::install_panic_hook();
+    crate::run::PRINTS.with(|p| p.borrow_mut().clear());
+    let cfg = RunCfg { loop_limit, recursion_limit: recursion, stack_limit: stack, ..RunCfg::default() };
+    let res = std::panic::catch_unwind(std::panic::AssertUnwindSafe(|| {
+        let mut ctx = Context::default();
+        install_print(&mut ctx);
+        apply_cfg(&mut ctx, &cfg);
+        let r = ctx.eval(Source::from_bytes(src.as_bytes()));
+        let eval = classify(&r, src);
+        let jobs = match ctx.run_jobs() {
+            Ok(()) => None,
+            Err(e) => Some(throw_class(&e)),
+        };
+        // read the counters with the limits lifted
+        apply_cfg(&mut ctx, &RunCfg::default());
+        let g = ctx.global_object();
+        let count = g.get(js_string!("count"), &mut ctx).ok().and_then(|v| v.as_number()).unwrap_or(-1.0);
+        let depth = g.get(js_string!("depth"), &mut ctx).ok().and_then(|v| v.as_number()).unwrap_or(-1.0);
+        (eval, jobs, count, depth)
+    }));
+    let prints = crate::run::PRINTS.with(|p| std::mem::take(&mut *p.borrow_mut()));
+    match res {
+        Ok((eval, jobs, count, depth)) => Outcome { eval, jobs, prints, count, depth },
+        Err(_) => Outcome { eval: Completion::Panic(panic_signature(&take_last_panic().unwrap_or_default())), jobs: None, prints, count: -1.0, depth: -1.0 },
+    }
+}
+
+impl C08 {
+    fn check(&self, src: &str, kind: &str, need: u64, is_async: bool, desc: &str, tape: &[u8]) -> CaseOut {
+        let mut t = Tape::new(tape);
+        let rendered = format!("//C08 kind={kind} need={need} async={is_async} {desc}\n{src}");
+        // reference: generous limits (must complete, and this also validates the template)
+        let free = run_limited(src, u64::MAX, 4096, 1 << 20);
+        if free.eval.is_limit() || free.jobs.as_ref().is_some_and(Completion::is_limit) {
+            return CaseOut::skip(rendered, "template hits a limit even with generous limits");
+        }
+        if free.eval.is_internal_failure() {
+            return CaseOut::fail(rendered, format!("internal failure {}", free.eval.render()), free.prints.join("\n"));
+        }
+        let expected_after = free.prints.iter().any(|l| l == "after-sync");
+        let mut labels: Vec<&'static str> = vec![];
+        if kind == "loop" {
+            // the set-up loop in the script frame needs `need` iterations as well
+            // (a) just above the need: unaffected
+            let above = need + 3 + t.below(40) as u64;
+            let a = run_limited(src, above, 4096, 1 << 20);
+            if a.eval != free.eval || a.jobs != free.jobs || a.prints != free.prints || a.count != free.count {
+                return CaseOut::fail(rendered, "limit above the need changed the behaviour", format!("loop limit {above}, need {need}\n--- unlimited: {} {:?} count={}\n{}\n--- limited: {} {:?} count={}\n{}", free.eval.render(), free.jobs, free.count, free.prints.join("\n"), a.eval.render(), a.jobs, a.count, a.prints.join("\n")));
+            }
+            if need >= 5 {
+                // (b) below the need: must be stopped, uninterceptably
+                let below = t.below((need - 3) as usize) as u64;
+                let b = run_limited(src, below, 4096, 1 << 20);
+                labels.push("limit-exceeded");
+                return self.judge_stopped(rendered, &b, "loop", below, is_async, expected_after, labels);
+            }
+            return CaseOut::pass(rendered, false).with_labels(vec!["under-limit-only"]);
+        }
+        // recursion: each level = 1 JS frame + native re-entry; generous: passes (checked above)
+        let r_small = 1 + t.below((need.max(3) - 2) as usize);
+        let stack_small = t.chance(40);
+        let b = if stack_small { run_limited(src, u64::MAX, 4096, 60 + t.below(200)) } else { run_limited(src, u64::MAX, r_small, 1 << 20) };
+        if need >= 6 || stack_small {
+            labels.push(if stack_small { "stack-limit" } else { "recursion-limit" });
+            if stack_small && !b.eval.is_limit() && !b.jobs.as_ref().is_some_and(Completion::is_limit) {
+                // a small stack that still suffices is not an error
+                return CaseOut::pass(rendered, false).with_labels(vec!["stack-limit-not-reached"]);
+            }
+            return self.judge_stopped(rendered, &b, "recursion", r_small as u64, is_async, expected_after, labels);
+        }
+        CaseOut::pass(rendered, false).with_labels(vec!["under-limit-only"])
+    }
+
+    #[allow(clippy::too_many_arguments)]
+    fn judge_stopped(&self, rendered: String, o: &Outcome, kind: &str, limit: u64, is_async: bool, _expected_after: bool, labels: Vec<&'static str>) -> CaseOut {
+        let dump = format!("limit {kind}={limit}\neval: {}\nrun_jobs: {:?}\ncount={} depth={}\nprints:\n{}", o.eval.render(), o.jobs.as_ref().map(Completion::render), o.count, o.depth, o.prints.join("\n"));
+        if o.eval.is_internal_failure() {
+            return CaseOut::fail(rendered, format!("internal failure {}", o.eval.render()), dump);
+        }
+        let hit_eval = o.eval.is_limit();
+        let hit_jobs = o.jobs.as_ref().is_some_and(Completion::is_limit);
+        if !hit_eval && !hit_jobs {
+            return CaseOut::fail(rendered, format!("{kind} limit not reported to the host"), dump);
+        }
+        if is_async && hit_eval && kind == "loop" && false {
+            return CaseOut::fail(rendered, "limit hit in the wrong entry", dump);
+        }
+        // no catch / finally / later statement of the offending activation chain may run
+        for l in &o.prints {
+            if l == "caught" || l == "finally" || l == "cb end" || l == "rec end" {
+                return CaseOut::fail(rendered, format!("limit error intercepted or outlived: marker '{l}' printed"), dump);
+            }
+            if l == "after-sync" && hit_eval {
+                return CaseOut::fail(rendered, "statement after the limit point ran", dump);
+            }
+        }
+        // bounded work
+        if kind == "loop" && o.count > (limit + 2) as f64 {
+            return CaseOut::fail(rendered, "loop body ran more often than the limit allows", dump);
+        }
+        if kind == "recursion" && labels.contains(&"recursion-limit") && o.depth > (limit + 1) as f64 {
+            return CaseOut::fail(rendered, "recursion went deeper than the limit allows", dump);
+        }
+        let nontrivial = rendered.contains("try {") || !rendered.contains(" route=call ");
+        CaseOut::pass(rendered, nontrivial).with_labels(labels)
+    }
+}
 
 impl Prop for C08 {
     fn id(&self) -> &'static str {
         "C08"
     }
-    fn streams(&self, _tier: Tier) -> Vec<Stream> {
-        vec![]
+    fn streams(&self, tier: Tier) -> Vec<Stream> {
+        let m = if tier == Tier::Quick { 1 } else { 30 };
+        vec![Stream::new("limits", 12_000 * m, 60).batch(500), Stream::new("product", (ROUTES.len() * LOOPS.len()) as u64, 16).batch(200).exhaustive()]
     }
     fn rule(&self) -> String {
-        "stub".into()
+        format!("programs = {{{} re-entry routes (call, new, accessors, every Proxy trap used, iterator protocol, toPrimitive/valueOf/toString, Array/TypedArray/Map/Set callbacks, sort comparator, replace callbacks, JSON toJSON/replacer/reviver, Reflect.apply/construct, call/apply/bind, promise executor, thenable getter, tagged template, direct/indirect eval, Function(), class static block/field initialisers, computed key, default parameter, generators, Symbol.hasInstance/species, getters reached through Object.assign/spread/destructuring/with, super call, then/finally/catch callbacks, async continuation, thenable job, async generator, for-await)}} x {{{} loop forms or recursion through the route}} x {{{} wrappers inside the activation}} x {{{} wrappers around the entry}}; limits drawn around the program's need. Checks: (1) with the loop limit above the need the trace, counters and completion equal the unlimited run; (2) with the limit below the need the host receives RuntimeLimitError from the evaluation or from run_jobs, no 'caught'/'finally'/'cb end'/'rec end' marker is printed, no statement after the limit point runs, the body counter <= limit+2 and the recursion depth <= limit+1. stream product enumerates every route x loop form once. Non-trivial = limit exceeded inside >= 1 try wrapper or through a non-plain-call route; distinct = distinct program + limits", ROUTES.len(), LOOPS.len(), WRAPPERS.len(), WRAPPERS.len())
     }
-    fn run_case(&self, _env: &mut Env, _stream: &str, _index: u64, _tape: &[u8]) -> CaseOut {
-        CaseOut::skip(String::new(), "stub")
+    fn run_case(&self, _env: &mut Env, stream: &str, index: u64, tape: &[u8]) -> CaseOut {
+        if stream == "product" {
+            // deterministic enumeration of route x loop (wrappers from the tape)
+            let r = (index as usize) % ROUTES.len();
+            let l = (index as usize) / ROUTES.len() % LOOPS.len();
+            let mut bytes = vec![255u8, ((r * 256 + 128) / ROUTES.len()) as u8, tape.first().copied().unwrap_or(0), tape.get(1).copied().unwrap_or(0), ((l * 256 + 128) / LOOPS.len()) as u8, 200];
+            bytes.extend_from_slice(tape);
+            let p = generate(&bytes);
+            let desc = format!("route={} form={} wrappers={}/{}", p.route, p.form, p.wrappers.0, p.wrappers.1);
+            return self.check(&p.src, p.kind, p.need, p.is_async, &desc, tape);
+        }
+        let p = generate(tape);
+        let desc = format!("route={} form={} wrappers={}/{}", p.route, p.form, p.wrappers.0, p.wrappers.1);
+        self.check(&p.src, p.kind, p.need, p.is_async, &desc, &tape[tape.len().min(8)..])
+    }
+    fn run_rendered(&self, _env: &mut Env, _stream: &str, rendered: &str) -> Option<CaseOut> {
+        let first = rendered.lines().next()?;
+        let get = |k: &str| first.split_whitespace().find_map(|w| w.strip_prefix(&format!("{k}=")).map(str::to_string));
+        let kind = get("kind")?;
+        let need: u64 = get("need")?.parse().ok()?;
+        let is_async = get("async")? == "true";
+        let src: String = rendered.lines().skip(1).collect::<Vec<_>>().join("\n") + "\n";
+        let desc = first.splitn(5, ' ').nth(4).unwrap_or("").to_string();
+        Some(self.check(&src, &kind, need, is_async, &desc, &[200, 100, 50, 25]))
+    }
+    fn rendered_prefix_lines(&self, _r: &str) -> usize {
+        1
     }
 }
